@@ -134,5 +134,8 @@ TagsMatchLists == /\ \A v \in Ids : tag[v] >= 2 => v \in ToSet(members[tag[v]])
 \* C06: a slot is free iff its list is empty; reserved lists keep their sentinel for ever
 ReservedKept == members[0] = <<0>> /\ members[1] = <<0>> /\ counter[0] = 0 /\ counter[1] = 0
 OccupiedIsGroups == Cardinality({s \in Slots : s >= 2 /\ members[s] # <<>>}) = Cardinality(aGroups)
+\* C06: from every reachable representation state the abstract graph can be read out until no group is left
+\* (Sodg!Recoverable on the mapped state); with OccupiedIsGroups this is "every usable slot can be made free again"
+ImplRecoverable == Abs!Recoverable
 NoDuplicateMembers == \A s \in Slots : Cardinality(ToSet(members[s])) = Len(members[s])
 =============================================================================
